@@ -461,12 +461,19 @@ func vC09NoRefreshToken(t *testing.T, out *vEmitter) {
 				out.Stat("c09_no_refresh_token_config_rejected", 1)
 				continue
 			}
+			// ... and the same with a refresh token whose access token is still good for hours: the age may be reset, but only
+			// by a refresh the identity provider was asked for
+			for _, withRT := range []bool{false, true} {
 			issued := time.Now().Add(-25 * time.Minute).Truncate(time.Second)
 			tokenExp := time.Now().Add(6 * time.Hour)
 			claims := vClaims("user@example.com", map[string]interface{}{"exp": tokenExp.Unix()})
 			raw := vJWT(vKeyRSA, "RS256", claims)
 			s := &sessionsapi.SessionState{CreatedAt: &issued, ExpiresOn: &tokenExp, Email: "user@example.com", User: "sub-user@example.com",
 				AccessToken: raw, IDToken: raw}
+			if withRT {
+				s.RefreshToken = "rt0"
+				e.idp.refreshTo("user@example.com", 20)
+			}
 			b := e.newBrowser("https://app.example.com")
 			vReseed(b, s)
 			e.idp.Reset()
@@ -484,9 +491,10 @@ func vC09NoRefreshToken(t *testing.T, out *vEmitter) {
 				}
 				if tokenCalls == 0 && !got.CreatedAt.Equal(issued) {
 					out.Violation("lifetime/age-reset-without-refresh", "a session's age was reset although the identity provider was not asked to refresh it",
-						map[string]interface{}{"provider": k, "redis": redis, "issued": issued.Unix(), "created_at_now": got.CreatedAt.Unix(), "request": i})
+						map[string]interface{}{"provider": k, "redis": redis, "issued": issued.Unix(), "created_at_now": got.CreatedAt.Unix(), "request": i, "has_refresh_token": withRT})
 					break
 				}
+			}
 			}
 		}
 	}
